@@ -19,7 +19,7 @@ use serde::Serialize;
 use crate::eds::{AxisType, ExtendedDataSquare};
 use crate::nmt::NamespaceProof;
 use crate::row::{ROW_ID_SIZE, RowId};
-use crate::{DataAvailabilityHeader, Error, Result, Share, bail_validation};
+use crate::{DataAvailabilityHeader, Error, Result, Share, bail_validation, bail_verification};
 
 pub use celestia_proto::shwap::Sample as RawSample;
 
@@ -126,14 +126,32 @@ impl Sample {
 
     /// verify sample with root hash from ExtendedHeader
     pub fn verify(&self, id: SampleId, dah: &DataAvailabilityHeader) -> Result<()> {
-        let root = match self.proof_type {
-            AxisType::Row => dah
-                .row_root(id.row_index())
-                .ok_or(Error::EdsIndexOutOfRange(id.row_index(), 0))?,
-            AxisType::Col => dah
-                .column_root(id.column_index())
-                .ok_or(Error::EdsIndexOutOfRange(0, id.column_index()))?,
+        // both coordinates must lie inside of the square, whichever axis the proof uses
+        let (Some(row_root), Some(column_root)) = (
+            dah.row_root(id.row_index()),
+            dah.column_root(id.column_index()),
+        ) else {
+            return Err(Error::EdsIndexOutOfRange(id.row_index(), id.column_index()));
         };
+
+        // root of the tree the proof was created for and the index of the sampled share in it
+        let (root, index) = match self.proof_type {
+            AxisType::Row => (row_root, id.column_index()),
+            AxisType::Col => (column_root, id.row_index()),
+        };
+
+        // The proof must be for the requested share exactly. Inclusion alone only shows that
+        // the share is somewhere in the row (or column).
+        let index = u32::from(index);
+        if self.proof.start_idx() != index || self.proof.end_idx() != index + 1 {
+            bail_verification!(
+                "proof is for shares {}..{} of the {}, expected share {}",
+                self.proof.start_idx(),
+                self.proof.end_idx(),
+                self.proof_type,
+                index
+            );
+        }
 
         self.proof
             .verify_range(&root, &[&self.share], *self.share.namespace())
